@@ -108,12 +108,17 @@ def same_basename_sequences(res, tier):
                     f.write(text)
                 paths.append(path)
             env = dict(os.environ, PYTHONPATH=core.REPO + os.pathsep + os.path.join(core.VERIF, "harness"), PYTHONDONTWRITEBYTECODE="1")
-            p = subprocess.run([sys.executable, "-m", "nv.real.fresh_hist", "script"] + paths, cwd=tmp, env=env, capture_output=True,
-                               text=True, timeout=300)
+            # ... and, last, the file just compiled is *edited in place* (its text replaced by the second one's) and compiled again
+            edited = os.path.join(tmp, f"s{i}", "edited.txt")
+            with open(edited, "w", encoding="utf-8") as f:
+                f.write(texts[1])
+            p = subprocess.run([sys.executable, "-m", "nv.real.fresh_hist", "script"] + paths + [f"@write:{paths[-1]}={edited}", paths[-1]],
+                               cwd=tmp, env=env, capture_output=True, text=True, timeout=300)
             try:
                 outs = json.loads(p.stdout)
             except ValueError:
                 raise core.Infra(f"fresh_hist failed: {(p.stderr or p.stdout)[-300:]}")
+            texts = texts + [texts[1]]
             stats["sequences"] += 1
             for k, (o, text) in enumerate(zip(outs, texts)):
                 if "mir" not in o:
@@ -124,7 +129,7 @@ def same_basename_sequences(res, tier):
                 if mir.get("source_files", {}).get("main.py") not in (None, text):
                     bad.insert(0, ("stale-text", "the embedded text of main.py is not the text of the file that was compiled"))
                 for kind, t in bad:
-                    res.violation({"property": "C19", "kind": "same-name-" + kind, "text": t, "texts": texts, "position": k},
+                    res.violation({"property": "C19", "kind": "same-name-" + kind, "text": t, "texts": texts, "position": k, "last_is_edit_in_place": True},
                                   f"v{k}/main.py, compiled after {k} other file(s) named main.py in one process: {t}"[:400])
     finally:
         shutil.rmtree(tmp, ignore_errors=True)
@@ -254,11 +259,16 @@ def replay(obj):
         bad = []
         try:
             paths = []
-            for k, text in enumerate(obj["texts"]):
+            texts_ = obj["texts"][:-1] if obj.get("last_is_edit_in_place") else obj["texts"]
+            for k, text in enumerate(texts_):
                 os.makedirs(os.path.join(tmp, f"v{k}"), exist_ok=True)
                 with open(os.path.join(tmp, f"v{k}", "main.py"), "w", encoding="utf-8") as f:
                     f.write(text)
                 paths.append(os.path.join(tmp, f"v{k}", "main.py"))
+            if obj.get("last_is_edit_in_place"):
+                with open(os.path.join(tmp, "edited.txt"), "w", encoding="utf-8") as f:
+                    f.write(obj["texts"][-1])
+                paths += [f"@write:{paths[-1]}={os.path.join(tmp, 'edited.txt')}", paths[-1]]
             env = dict(os.environ, PYTHONPATH=core.REPO + os.pathsep + os.path.join(core.VERIF, "harness"), PYTHONDONTWRITEBYTECODE="1")
             p = subprocess.run([sys.executable, "-m", "nv.real.fresh_hist", "script"] + paths, cwd=tmp, env=env, capture_output=True, text=True, timeout=300)
             for o, text in zip(json.loads(p.stdout), obj["texts"]):
